@@ -2,6 +2,8 @@
 # usage: runall.sh <tier> [seed]  — runs every check once, one line per check
 tier="${1:-quick}"; seed="${2:-1}"
 cd "$(dirname "$0")/.."
+# the extra passes need the monitor to build for 386 and with -race: say so loudly if it does not
+(cd harness && GOFLAGS=-mod=mod GOPROXY=off GOSUMDB=off GOTOOLCHAIN=local GOARCH=386 go build -o /dev/null ./cmd/mon) >/dev/null 2>&1 || echo "WARNING: the monitor does not build for GOARCH=386 - the platform pass will be skipped"
 for i in $(seq -w 1 20); do
   p="C$i"; s=$(date +%s)
   out=$(VERIF_SEED=$seed ./run.sh $p $tier 2>&1); rc=$?
